@@ -5,25 +5,26 @@ import Dashu.Model.Mem.Buffer
 -/
 namespace Dashu.Model.Mem
 
-theorem defaultCapacity_eq (mx n : Nat) : defaultCapacity mx n = min (n + n / 8 + 2) mx := by
-  unfold defaultCapacity Dashu.Gen.default_capacity
-  simp only [Dashu.GluePrelude.min, Dashu.GluePrelude.add_, Dashu.GluePrelude.div_]
-  by_cases h : ((n : Int) + (n : Int) / 8 + 2 ≤ (mx : Int)) <;> simp only [h, ↓reduceIte] <;> omega
+theorem gmin_toNat (a b : Int) : (Dashu.GluePrelude.min a b).toNat = min a.toNat b.toNat := by
+  unfold Dashu.GluePrelude.min
+  by_cases h : a ≤ b <;> simp only [h, ↓reduceIte] <;> omega
 
-theorem maxCompactCapacity_eq (mx n : Nat) : maxCompactCapacity mx n = min (n + n / 4 + 4) mx := by
-  unfold maxCompactCapacity Dashu.Gen.max_compact_capacity
-  simp only [Dashu.GluePrelude.min, Dashu.GluePrelude.add_, Dashu.GluePrelude.div_]
-  by_cases h : ((n : Int) + (n : Int) / 4 + 4 ≤ (mx : Int)) <;> simp only [h, ↓reduceIte] <;> omega
-
-/-- `n ≤ default_capacity n ≤ max_compact_capacity n ≤ MAX_CAPACITY` for `n ≤ MAX_CAPACITY` -/
+/-- `n ≤ default_capacity n ≤ max_compact_capacity n ≤ MAX_CAPACITY` for `n ≤ MAX_CAPACITY`; proved from the
+    regenerated text itself (no closed form is assumed: any literal divisors/offsets for which the chain is
+    linear-arithmetic true keep this proof valid) -/
 theorem policy_chain (mx n : Nat) (h : n ≤ mx) :
     n ≤ defaultCapacity mx n ∧ defaultCapacity mx n ≤ maxCompactCapacity mx n ∧
     maxCompactCapacity mx n ≤ mx := by
-  rw [defaultCapacity_eq, maxCompactCapacity_eq]; omega
+  unfold defaultCapacity maxCompactCapacity Dashu.Gen.default_capacity Dashu.Gen.max_compact_capacity
+  rw [gmin_toNat, gmin_toNat]
+  simp only [Dashu.GluePrelude.add_, Dashu.GluePrelude.div_]
+  omega
 
 /-- a buffer allocated for `n+1` words and filled with `n` or `n+1` is compact (`Repr::ones`) -/
 theorem default_succ_le_maxCompact (mx n : Nat) :
     defaultCapacity mx (n + 1) ≤ maxCompactCapacity mx n := by
-  rw [defaultCapacity_eq, maxCompactCapacity_eq]; omega
-
+  unfold defaultCapacity maxCompactCapacity Dashu.Gen.default_capacity Dashu.Gen.max_compact_capacity
+  rw [gmin_toNat, gmin_toNat]
+  simp only [Dashu.GluePrelude.add_, Dashu.GluePrelude.div_]
+  omega
 end Dashu.Model.Mem
